@@ -785,6 +785,41 @@ pub mod build {
 
     /// Lower- (or upper-) triangular matrix with diagonal entries ±[1, 2) and off-diagonal entries
     /// N(0,1)·`off`; the other triangle is exactly zero.
+    /// A = H1 · diag(σ) · H2 with Householder reflections H1, H2 and singular values graded
+    /// geometrically from 1 down to 10^-e: ill-conditioned without any row/column scaling structure.
+    pub fn svd_graded(rng: &mut Rng, n: usize, e: f64) -> Vec<f64> {
+        let mut a = vec![0.0; n * n];
+        for i in 0..n {
+            let t = if n > 1 { i as f64 / (n - 1) as f64 } else { 0.0 };
+            a[i * n + i] = 10f64.powf(-e * t);
+        }
+        for side in 0..2 {
+            let v: Vec<f64> = (0..n).map(|_| rng.gauss()).collect();
+            let vv: f64 = v.iter().map(|x| x * x).sum();
+            if vv == 0.0 {
+                continue;
+            }
+            if side == 0 {
+                // A <- (I - 2 v v^T / v^T v) A
+                for j in 0..n {
+                    let d: f64 = (0..n).map(|i| v[i] * a[i * n + j]).sum::<f64>() * 2.0 / vv;
+                    for i in 0..n {
+                        a[i * n + j] -= d * v[i];
+                    }
+                }
+            } else {
+                // A <- A (I - 2 v v^T / v^T v)
+                for i in 0..n {
+                    let d: f64 = (0..n).map(|j| a[i * n + j] * v[j]).sum::<f64>() * 2.0 / vv;
+                    for j in 0..n {
+                        a[i * n + j] -= d * v[j];
+                    }
+                }
+            }
+        }
+        a
+    }
+
     pub fn triangular(rng: &mut Rng, n: usize, lower: bool, off: f64) -> Vec<f64> {
         let mut t = vec![0.0; n * n];
         for i in 0..n {
